@@ -214,7 +214,9 @@ theorem gradient_is_derivative (ic : Fin ne → Fin nc → ι) (iT : Fin ne → 
         + (∑ s, weight (obs e s) (sigma e s) (arrival Real.sqrt (sumR nc) (fun c => y (ic e c)) (rcv s) (y (iT e)) (vel y))
                   * (-(SourceLoc.dist Real.sqrt (sumR nc) (fun c => y (ic e c)) (rcv s)) / (vel y * vel y))) • gvel := by
     intro e
-    simp only [gradCoord, gradTime, sumR, smul_add, Finset.sum_add_distrib, Finset.smul_sum, Finset.sum_smul, smul_smul]
+    have hpos : ∀ s, (0:ℝ) < SourceLoc.dist Real.sqrt (sumR nc) (fun c => y (ic e c)) (rcv s) := fun s => by
+      unfold SourceLoc.dist sumR; exact Real.sqrt_pos.mpr (hoff e s)
+    simp only [gradCoord, dirTerm, lit_zero, hpos, if_true, gradTime, sumR, smul_add, Finset.sum_add_distrib, Finset.smul_sum, Finset.sum_smul, smul_smul]
     rw [Finset.sum_comm]
     abel
   have hG : (∑ e, ∑ s, weight (obs e s) (sigma e s) (arrival Real.sqrt (sumR nc) (fun c => y (ic e c)) (rcv s) (y (iT e)) (vel y)) •
@@ -230,6 +232,15 @@ theorem gradient_is_derivative (ic : Fin ne → Fin nc → ι) (iT : Fin ne → 
     simp only [Finset.sum_add_distrib, gradVel, sumR, Finset.sum_smul]
   rw [← hG]
   exact hsum
+
+/-- an event exactly on a station: the (undefined) direction term of that pair is dropped, every
+    other term is as usual — nothing is divided by zero, so in IEEE arithmetic the gradient is
+    finite wherever the misfit is (checked on the implementation by the C17.eval oracle) -/
+theorem coincident_station_term_dropped (num v : ℝ) : dirTerm num v 0 = 0 := by
+  simp [dirTerm, lit_zero]
+
+theorem dirTerm_of_pos (num v d : ℝ) (hd : 0 < d) : dirTerm num v d = num / (v * d) := by
+  simp [dirTerm, lit_zero, hd]
 
 end grad
 
